@@ -71,6 +71,9 @@ for mid in sorted(os.listdir(os.path.join(HERE, 'seeded'))):
                              and 'passed' in meta.get('repo_test_suite_with_change', '') and 'failed' not in meta.get('repo_test_suite_with_change', ''))
     finally:
         shutil.rmtree(scratch, ignore_errors=True)
+    remarks = os.path.join(d, 'remarks.json')     # hand-written findings about this change (kept across re-runs)
+    if os.path.exists(remarks):
+        meta.update(json.load(open(remarks)))
     json.dump(meta, open(os.path.join(d, 'meta.json'), 'w'), indent=1)
     det = {c: v['detected'] for c, v in meta.get('checks', {}).items()}
     print(mid, 'valid=%s' % meta.get('valid'), 'detected=%s' % det, flush=True)
